@@ -203,7 +203,11 @@ func validateSiacoins(ms *MidState, txn types.Transaction, ts V1TransactionSuppl
 		outputSum = outputSum.Add(fc.Payout)
 	}
 	for _, fee := range txn.MinerFees {
-		outputSum = outputSum.Add(fee)
+		// NOTE: miner fees are not covered by validateCurrencyOverflow
+		var overflow bool
+		if outputSum, overflow = outputSum.AddWithOverflow(fee); overflow {
+			return errors.New("transaction outputs exceed inputs")
+		}
 	}
 	if inputSum.Cmp(outputSum) != 0 {
 		return fmt.Errorf("siacoin inputs (%v) do not equal outputs (%v)", inputSum, outputSum)
